@@ -38,7 +38,7 @@ type sharedFixtures struct {
 
 var fx *sharedFixtures
 
-const concKinds = 17
+const concKinds = 18
 
 // the two messages of operation kind 15: the first cannot be encoded (its SECOND payload fails, after the first was
 // already written), the second is an ordinary message
@@ -136,6 +136,31 @@ func concOp(r0 *Rng, shared []byte) string {
 				return "sk:unprotect-err"
 			}
 			return "sk:" + normMsgNoNext(sxMsg(m))
+		case 17: // the composite entry point: NewIKESAKey (random exponent from the shared source, both exponentiations, key
+			// derivation).  The exponent differs from run to run; schedule-independent facts: with the generator as the
+			// peer's value the shared secret IS the local public value, so the keys must be those an independent derivation
+			// obtains from the returned public value, which has the modulus length
+			s := genSuite(r)
+			g := []string{"2", "14"}[r.Intn(2)]
+			prop := &message.Proposal{ProtocolID: message.TypeIKE}
+			mk := func(ty uint8, id uint16) *message.Transform { return &message.Transform{TransformType: ty, TransformID: id} }
+			prop.DiffieHellmanGroup = append(prop.DiffieHellmanGroup, mk(4, map[string]uint16{"2": 2, "14": 14}[g]))
+			prop.EncryptionAlgorithm = append(prop.EncryptionAlgorithm, &message.Transform{TransformType: 1, TransformID: 12, AttributePresent: true,
+				AttributeFormat: 1, AttributeType: 14, AttributeValue: uint16(encrKeyLen[s.e] * 8)})
+			prop.IntegrityAlgorithm = append(prop.IntegrityAlgorithm, mk(3, map[string]uint16{"md5": 1, "sha1": 2, "sha256": 12}[s.i]))
+			prop.PseudorandomFunction = append(prop.PseudorandomFunction, mk(2, map[string]uint16{"md5": 1, "sha1": 2, "sha256": 5}[s.p]))
+			nonce, si, sr := r.Bytes(r.Range(16, 64)), r.U64(), r.U64()
+			k, pub, err := security.NewIKESAKey(prop, []byte{2}, nonce, si, sr)
+			if err != nil {
+				return "newsa:err"
+			}
+			if len(pub) != dhLen[g] {
+				return fmt.Sprintf("newsa:public-value-of-%d-octets", len(pub))
+			}
+			if ref, _ := implGenIkesa(s, nonce, pub, si, sr); ref != saKeysSX(k) {
+				return "newsa:keys-differ-from-the-derivation-over-the-returned-public-value"
+			}
+			return "newsa:ok"
 		case 5: // IKE SA key derivation
 			s := genSuite(r)
 			out, _ := implGenIkesa(s, r.Bytes(r.Range(1, 64)), r.Bytes(r.Range(1, 64)), r.U64(), r.U64())
